@@ -1255,6 +1255,11 @@ def probe_descs():
         _probe(9006, 'filter_not_in-unbounded-with-bounded', [I64],
                ['let o = in0.filter_not_in(p0.source_iter(q!(vec![1i64, 3i64])));'], [('o', S(I64))],
                ['filter_not_in', 'source_iter', 'probe']),
+        _probe(9008, 'top-level-singleton-zip-optional', [I64],
+               ['let z = p0.singleton(q!(1i64)).zip(p0.singleton(q!(2i64)).filter(q!(|x: &i64| *x > 0i64)));',
+                'let o = in0.map(q!(|x: i64| x));'],
+               [('o', S(I64)), ('z', Var('Op', (0, None), t=PAIR, bound=BND))],
+               ['zip', 'singleton_source', 'singleton_filter', 'map']),
         _probe(9007, 'cross_product-bounded-left-unbounded-right-typed-bounded', [I64, I64],
                ["let fake: Stream<(i64, i64), Process<'a, P0>, Bounded, NoOrder, ExactlyOnce> = "
                 "p0.source_iter(q!(vec![0i64])).cross_product(in1);",
